@@ -86,6 +86,8 @@ pub fn catalogue(w: &World, tier: &str, seed: u64, reps: usize) -> Vec<FaultCase
                             push(one(c, m.to, &m.label, m.k, What::Tree(TreeMut { path: vec![i, 0, 0], op: MutOp::FlipBit }), s ^ i as u64), format!("flip-bit:{pc}"), &m.label, vec![m.to], false, None);
                             push(one(c, m.to, &m.label, m.k, What::Tree(TreeMut { path: vec![i, 0, 1], op: MutOp::FlipBit }), s ^ i as u64), format!("flip-mac-or-label:{pc}"), &m.label, vec![m.to], false, None);
                             push(one(c, m.to, &m.label, m.k, What::Tree(TreeMut { path: vec![i, 0, 1], op: MutOp::Randomize }), s ^ i as u64), format!("random-mac-or-label:{pc}"), &m.label, vec![m.to], false, None);
+                            // all-zero MAC / label together with a flipped bit (Mac(0) must not mean "nothing to verify")
+                            push(one(c, m.to, &m.label, m.k, What::TreeMulti(vec![TreeMut { path: vec![i, 0, 0], op: MutOp::FlipBit }, TreeMut { path: vec![i, 0, 1], op: MutOp::SetU128(0) }]), s ^ (i as u64 * 3 + 1)), format!("flip-bit-with-zero-mac-or-label:{pc}"), &m.label, vec![m.to], false, None);
                         }
                     }
                     "labels" => {
